@@ -191,12 +191,56 @@ def one(ctx, rng, tmpdir):
     ctx.sample({"reactions": [(r["reactants"], r["products"], r["law"], r["locals"]) for r in desc["reactions"]], "rules": desc["rules"]}, cap=3)
 
 
+def left_nested_power(ctx, tmpdir):
+    """kinetic laws whose MathML is power(power(a, b), c): libsbml's formulaToL3String prints them as `a^b^c`, which its
+    own parser - and the importer's - read as a^(b^c)."""
+    from bioscrape.types import Model
+    from bioscrape.simulator import ModelCSimInterface
+    for law, pv in (("(A^p)^q", {"p": 2.0, "q": 3.0}), ("k * (B^q)^p + A", {"p": 2.0, "q": 0.5, "k": 3.0}), ("A^(p^q)", {"p": 2.0, "q": 3.0})):
+        doc = libsbml.SBMLDocument(3, 2)
+        m = doc.createModel(); m.setId("nested_power")
+        c = m.createCompartment(); c.setId("cell"); c.setSize(1.0); c.setConstant(True); c.setSpatialDimensions(3)
+        for sname in ("A", "B", "P"):
+            sp = m.createSpecies(); sp.setId(sname); sp.setCompartment("cell"); sp.setConstant(False); sp.setBoundaryCondition(False)
+            sp.setHasOnlySubstanceUnits(False); sp.setInitialAmount(1.0)
+        for g, v in pv.items():
+            p = m.createParameter(); p.setId(g); p.setConstant(True); p.setValue(v)
+        r = m.createReaction(); r.setId("r0"); r.setReversible(False)
+        pr = r.createProduct(); pr.setSpecies("P"); pr.setStoichiometry(1.0); pr.setConstant(True)
+        for mod in ("A", "B"):
+            mr = r.createModifier(); mr.setSpecies(mod)
+        ast = libsbml.parseL3Formula(law)
+        r.createKineticLaw().setMath(ast)
+        path = os.path.join(tmpdir, "nested.xml")
+        libsbml.writeSBMLToFile(doc, path)
+        case = {"kinetic_law": law, "parameters": pv, "printed_by_libsbml": libsbml.formulaToL3String(ast)}
+        ctx.begin_case(case)
+        M = Model(sbml_filename=path, sbml_warnings=False)
+        sl = M.get_species_list()
+        I = ModelCSimInterface(M)
+        I.py_prep_deterministic_simulation()
+        x = {"A": 1.5, "B": 4.0, "P": 0.0}
+        dx = np.zeros(len(sl))
+        I.py_calculate_deterministic_derivative(np.array([x[s_] for s_ in sl]), dx, 0.0)
+        want = sbml_eval.ast_eval(ast, dict(pv, **x))
+        got = float(dx[sl.index("P")])
+        ctx.evaluated()
+        if relerr(got, want) > 1e-9:
+            left = "(A^p)^q" in law or "(B^q)^p" in law
+            ctx.violation("rate-equation/left-nested-power" if left else "rate-equation/nested-power",
+                          "kinetic law %s (MathML power of a power) is imported with rate %r at %s; the document's mathematics give %r"
+                          % (law, got, x, want), dict(case, state=x, got=got, want=want))
+        else:
+            ctx.count("nested_power_ok")
+
+
 def run(ctx):
     warnings.filterwarnings("ignore")
     n = 60 if ctx.quick() else 2000
     with tempfile.TemporaryDirectory(prefix="verif_c13_") as d:
         for i in range(n):
             one(ctx, ctx.rng, d)
+        left_nested_power(ctx, d)
 
 
 def replay(ctx, obj):
